@@ -56,7 +56,9 @@ def objective_term(draw, sp):
 def strategy_(draw):
     sp = draw(gen.base_ocp(discrete_prob=1))
     sp["objective"] = [draw(objective_term(sp)) for _ in range(draw(st.integers(1, 4)))]
-    return {"spec": sp, "rng": draw(st.integers(0, 2**31 - 1))}
+    # a further term declared after the problem has been transcribed once (the sum is over all add_objective calls, whenever made)
+    late = draw(objective_term(sp)) if draw(st.integers(0, 2)) == 0 else None
+    return {"spec": sp, "late_term": late, "rng": draw(st.integers(0, 2**31 - 1))}
 
 
 def strategy(tier):
@@ -80,7 +82,7 @@ def nontrivial(case):
 def classify(case):
     sp = case["spec"]
     m = sp["method"]
-    labs = ["method:" + m["cls"], "grid:" + m["grid"]["cls"]] + ["term:" + k for k in sorted(term_kinds(sp))]
+    labs = ["method:" + m["cls"], "grid:" + m["grid"]["cls"]] + ["term:" + k for k in sorted(term_kinds(sp))] + (["term added after transcription"] if case.get("late_term") else [])
     if m["cls"] == "DC":
         labs.append("dc:%s-%d" % (m["scheme"], m["degree"]))
     else:
@@ -134,6 +136,20 @@ def check(case, ctx):
             fails.append(Fail("value-of-objective", feats, {"value(ocp.objective)": vo, "nlp_f": res["f"]}))
             break
     ctx.count("numeric_points", K)
+    if not fails and case.get("late_term") is not None:
+        B.stage = B.ocp
+        B.ocp.add_objective(E.to_ca(case["late_term"], B, B.ocp))
+        nlp2 = NLP(B.ocp)
+        if nlp2.nx == nlp.nx:       # (a term may activate a variable the NLP did not contain before: not comparable then)
+            res = nlp.eval(X[0])
+            data = ref.override_params(obs.unpack(res, "main"), sp, N)
+            tr = ref.Traj(R, data, M)
+            integral2 = (lambda t, integrand: ref.collocation_integral(t, data, col, integrand)) if dc else (lambda t, integrand: ref.shooting_integral(t, scheme, integrand))
+            want = float(sum(ref.ev_top(t, tr, integral2) for t in sp["objective"] + [case["late_term"]]))
+            got = nlp2.eval(X[0])["f"]
+            if np.isfinite(want) and not close(got, want, rtol=1e-9, atol=1e-9):
+                fails.append(Fail("late-term-not-in-objective", feats, {"nlp_f_after": got, "nlp_f_before": res["f"], "reference_with_late_term": want}))
+            ctx.count("late_terms")
     # the number the user reads back is the cost the solver worked on
     if not fails:
         sp2 = copy.deepcopy(sp)
